@@ -19,12 +19,19 @@ TRUSTED = ['binary64 treated as real arithmetic', 'jax.make_jaxpr denotes what j
 NPE, NQ = 3, 2
 
 
+CONNS2 = [[0, 1, 2], [2, 1, 3]]       # two elements sharing the edge (1, 2), opposite local positions
+
+
 def _fs(shapes, vols, shapeGrads, coords):
     from optimism import FunctionSpace, Mesh, QuadratureRule
-    mesh = Mesh.Mesh(coords=coords, conns=jnp.array([[0, 1, 2]]), simplexNodesOrdinals=None, parentElement=None,
+    if shapes.ndim == 2:          # one element
+        shapes, vols, shapeGrads, conns = shapes[None], vols[None], shapeGrads[None], [[0, 1, 2]]
+    else:                         # assembled two-element patch
+        conns = CONNS2
+    mesh = Mesh.Mesh(coords=coords, conns=jnp.array(conns), simplexNodesOrdinals=None, parentElement=None,
                      parentElement1d=None, blocks=None, nodeSets=None, sideSets=None)
     quad = QuadratureRule.QuadratureRule(jnp.zeros((NQ, 2)), jnp.ones(NQ))
-    return FunctionSpace.FunctionSpace(shapes[None], vols[None], shapeGrads[None], mesh, quad, False)
+    return FunctionSpace.FunctionSpace(shapes, vols, shapeGrads, mesh, quad, False)
 
 
 class Material:
@@ -47,7 +54,7 @@ def run(S):
     S.function('Mechanics.compute_newmark_lagrangian', Mechanics.compute_newmark_lagrangian, 'J')
     S.function('Mechanics.kinetic_energy_density', Mechanics.kinetic_energy_density, 'J')
     S.function('Mechanics._compute_element_masses', Mechanics._compute_element_masses, 'J')
-    S.assume('one symbolic 3-node element with 2 quadrature points stands for every element: the library sums identical per-element kernels over elements (vmap + dot), trusted JAX semantics')
+    S.assume('a symbolic 3-node element and an assembled patch of two such elements sharing an edge (2 quadrature points each, symbolic shape data) stand for every mesh: the library maps one kernel over elements and sums, trusted JAX vmap semantics')
     N = J.sym_array('N', (NQ, NPE))
     vol = J.sym_array('vol', (NQ,))
     dN = J.sym_array('dN', (NQ, NPE, 2))
@@ -143,8 +150,67 @@ def run(S):
                                  tm.eq(U1[a, i], U0[a, i] + dt * V0[a, i])))
     S.add('Mechanics.predict+correct/zero_acceleration_is_integrated_exactly', pre, tm.and_(*cl))
 
-    # ---- (5) trapezoidal rule conserves energy for quadratic strain energy (lemma over the proved formulas) --
+    # ---- (5) the same on an assembled patch: two elements sharing an edge (nodes numbered differently in each) ---
+    _assembled_patch(S, pre, rho, gam, bet, dt)
+
+    # ---- (6) trapezoidal rule conserves energy for quadratic strain energy (lemma over the proved formulas) --
     _energy_lemma(S)
+
+
+def _assembled_patch(S, pre, rho, gam, bet, dt):
+    """global quantities on a 2-element, 4-node patch with symbolic shape data per element: the gather of nodal values
+    through the connectivity, the sum over elements and the scatter of the gradient are the library's own"""
+    NE, NN = len(CONNS2), 4
+    N = J.sym_array('Np', (NE, NQ, NPE))
+    vol = J.sym_array('volp', (NE, NQ))
+    dN = J.sym_array('dNp', (NE, NQ, NPE, 2))
+    X = J.sym_array('Xp', (NN, 2))
+    U, UP, V = (J.sym_array(n, (NN, 2)) for n in ('Up', 'UPp', 'Vp'))
+    Q = J.sym_array('Qp', (NE, NQ, 1))
+
+    def glob(N_, vol_, dN_, X_, rho_, g_, b_, U_, UP_, V_, Q_, dt_):
+        d = _dyn(N_, vol_, dN_, X_, rho_, g_, b_)
+        gE = jax.grad(d.compute_algorithmic_energy, 0)(U_, UP_, Q_, dt_)
+        gSE = jax.grad(d.compute_output_strain_energy, 0)(U_, Q_, dt_)
+        return gE, gSE, d.compute_element_masses(), d.compute_output_kinetic_energy(V_)
+    gE, gSE, Me, KE = J.symbolic_call(glob, N, vol, dN, X, rho, gam, bet, U, UP, V, Q, dt)
+    # assembled consistent mass from the specification (not from the library's element masses)
+    Mg = {}
+    for e, conn in enumerate(CONNS2):
+        for a in range(NPE):
+            for b in range(NPE):
+                k = (conn[a], conn[b])
+                m = tm.ZERO
+                for q in range(NQ):
+                    m = m + rho * vol[e, q] * N[e, q, a] * N[e, q, b]
+                Mg[k] = Mg.get(k, tm.ZERO) + m
+    cl = []
+    for A in range(NN):
+        for i in range(2):
+            ma = tm.ZERO
+            for B in range(NN):
+                if (A, B) in Mg:
+                    ma = ma + Mg[(A, B)] * (U[B, i] - UP[B, i]) / (bet * dt * dt)
+            cl.append((gE[A, i], gSE[A, i] + ma))
+    ideal.add_ideal_obligation(S, 'Mechanics.compute_algorithmic_energy/assembled_patch/gradient_is_internal_force_plus_assembled_mass_times_newmark_acceleration',
+                               [], cl, fallback_hyps=pre)
+    half = tm.ZERO
+    for (A, B), m in Mg.items():
+        for i in range(2):
+            half = half + V[A, i] * m * V[B, i] / 2
+    S.add('Mechanics.compute_output_kinetic_energy/assembled_patch/is_half_v_M_v', pre, tm.eq(J.scalar(KE), half))
+    pou = [tm.eq(N[e, q, 0] + N[e, q, 1] + N[e, q, 2], 1) for e in range(NE) for q in range(NQ)]
+    tot, area = tm.ZERO, tm.ZERO
+    for e in range(NE):
+        for q in range(NQ):
+            area = area + vol[e, q]
+        for a in range(NPE):
+            for b in range(NPE):
+                tot = tot + Me[e, a, 0, b, 0]
+    S.add('Mechanics.compute_element_masses/assembled_patch/mass_sums_to_density_times_area', pre + pou, tm.eq(tot, rho * area))
+    cm = [tm.eq(Me[e, a, i, b, i], rho * (vol[e, 0] * N[e, 0, a] * N[e, 0, b] + vol[e, 1] * N[e, 1, a] * N[e, 1, b]))
+          for e in range(NE) for a in range(NPE) for b in range(NPE) for i in range(2)]
+    S.add('Mechanics.compute_element_masses/assembled_patch/per_element_consistent_mass', pre, tm.and_(*cm))
 
 
 def _energy_lemma(S):
